@@ -195,12 +195,12 @@ func facts(f *hc.Facts) {
 	f.Const("preallocateLimit", "bin", "PreallocateLimit")
 
 	// value checks, translated: the model calls these definitions
-	f.TranslateExpr("msgLenInvalidEnc", "proto", at(nonErrConds(f, "proto", "Message.Encode"), 0), hc.ExprOpt{})
-	f.TranslateExpr("msgLenInvalidDec", "proto", at(nonErrConds(f, "proto", "Message.Decode"), 0), hc.ExprOpt{})
+	f.TranslateExprAuto("msgLenInvalidEnc", "proto", at(nonErrConds(f, "proto", "Message.Encode"), 0), hc.ExprOpt{})
+	f.TranslateExprAuto("msgLenInvalidDec", "proto", at(nonErrConds(f, "proto", "Message.Decode"), 0), hc.ExprOpt{})
 	uc := nonErrConds(f, "proto", "UnencryptedMessage.Decode")
-	f.TranslateExpr("unencAuthKeyBad", "proto", at(uc, 0), hc.ExprOpt{})
-	f.TranslateExpr("unencLenNegative", "proto", at(uc, 1), hc.ExprOpt{})
-	f.TranslateExpr("unencLenBeyond", "proto", at(uc, 2), hc.ExprOpt{})
+	f.TranslateExprAuto("unencAuthKeyBad", "proto", at(uc, 0), hc.ExprOpt{})
+	f.TranslateExprAuto("unencLenNegative", "proto", at(uc, 1), hc.ExprOpt{})
+	f.TranslateExprAuto("unencLenBeyond", "proto", at(uc, 2), hc.ExprOpt{})
 	// the container loop `for i := 0; i < n; i++`
 	var loopCond ast.Expr
 	if fd := f.FuncDecl("proto", "MessageContainer.Decode"); fd != nil {
@@ -211,7 +211,7 @@ func facts(f *hc.Facts) {
 			return true
 		})
 	}
-	f.TranslateExpr("containerLoopCond", "proto", loopCond, hc.ExprOpt{})
+	f.TranslateExprAuto("containerLoopCond", "proto", loopCond, hc.ExprOpt{})
 	// GZIP.Decode: io.LimitReader(r, L) and the bomb check on reader.Total()
 	var limitArg, bombCond ast.Expr
 	var locals map[string]ast.Expr
@@ -229,8 +229,8 @@ func facts(f *hc.Facts) {
 			}
 		}
 	}
-	f.TranslateExpr("gzipLimitArg", "proto", limitArg, hc.ExprOpt{Locals: locals})
-	f.TranslateExpr("gzipBomb", "proto", bombCond, hc.ExprOpt{Locals: locals})
+	f.TranslateExprAuto("gzipLimitArg", "proto", limitArg, hc.ExprOpt{Locals: locals})
+	f.TranslateExprAuto("gzipBomb", "proto", bombCond, hc.ExprOpt{Locals: locals})
 
 	// write / read orders, interpreted by the model
 	bufferOps(f, "opsMessageEncode", "proto", "Message.Encode")
